@@ -3,8 +3,7 @@
    The AF_INET6 text conversions are Section variables here; the laws assumed of them are
    hypotheses of the theorems (see the Section Resolve below). *)
 From Coq Require Import Arith NArith ZArith List Lia Bool.
-From LCP Require Import Base.CheckedMem Base.Sweep Util.EndianMem Util.EndianMemProofs Util.Endian Util.EndianProofs
-  Util.SockText Util.SockTextProofs Util.Sock Gen.Repo_codec2.
+From LCP Require Import Base.CheckedMem Base.Sweep Util.EndianMem Util.EndianMemProofs Util.Endian Util.EndianProofs Util.SockText Util.SockTextProofs Util.Sock Gen.Repo_codec2.
 Import ListNotations.
 Local Open Scope N_scope.
 Local Open Scope res_scope.
@@ -518,7 +517,7 @@ Section RoundTrip.
     ~ In 58 ps -> parse_port ps = Some p ->
     resolve_spec pton6 (91 :: ip ++ 93 :: 58 :: ps) =
     if existsb (N.eqb 58) ip then inet6_spec pton6 ip p else inet4_spec ip p.
-  Proof. clear pton6_len pton6_ntop6 ntop6_shape.
+  Proof. clear pton6_len pton6_ntop6 ntop6_shape ntop6.
     intros Hc Hp. unfold resolve_spec. cbn [hd]. change (91 =? 47) with false. cbv iota.
     replace (91 :: ip ++ 93 :: 58 :: ps) with ((91 :: ip ++ [93]) ++ 58 :: ps)
       by (cbn [app]; rewrite <- app_assoc; reflexivity).
@@ -669,3 +668,69 @@ Example deserialize_example_short :
 Proof. vm_compute. reflexivity. Qed.
 Example wf_sa_example : wf_sa (sa_ipv4 80 [1; 2; 3; 4]).
 Proof. unfold wf_sa. cbn. repeat split; lia. Qed.
+
+(* M4: a socket address survives serialise / deserialise *)
+Theorem sock_addr_serialize_roundtrip sa :
+  wf_sa sa ->
+  exists buf, sock_addr_serialize_m sa = Ok buf /\
+              buf = native_bytes 4 (sa_family sa) ++ native_bytes 4 (sa_socktype sa) ++
+                    native_bytes 4 (N.of_nat (length (sa_name sa))) ++ sa_name sa /\
+              sock_addr_deserialize_m buf = Ok (Some sa).
+Proof.
+  intros H. exists (serialized sa). split; [apply sock_addr_serialize_ok|].
+  split; [reflexivity | apply sock_addr_deserialize_serialize, H].
+Qed.
+
+(* The three laws assumed of the AF_INET6 text conversions are jointly satisfiable (so the IPv6
+   round-trip theorem is not vacuous): a toy pair - ':' followed by two letters per byte - has them.
+   That the real inet_ntop / inet_pton have them is what the correspondence run samples. *)
+Definition toy_ntop6 (a : list N) : list N := 58 :: flat_map (fun b => [65 + b / 16; 65 + b mod 16]) a.
+Fixpoint toy_unpair (s : list N) : option (list N) :=
+  match s with
+  | [] => Some []
+  | h :: l :: r => option_map (cons ((h - 65) * 16 + (l - 65))) (toy_unpair r)
+  | _ => None
+  end.
+Definition toy_pton6 (s : list N) : option (list N) :=
+  match s with
+  | 58 :: r => match toy_unpair r with
+               | Some a => if Nat.eqb (length a) 16 then Some a else None
+               | None => None
+               end
+  | _ => None
+  end.
+
+Lemma toy_unpair_ok a : toy_unpair (flat_map (fun b => [65 + b / 16; 65 + b mod 16]) a) = Some a.
+Proof.
+  induction a as [|b r IH]; [reflexivity|]. cbn [flat_map app toy_unpair]. rewrite IH. cbn [option_map].
+  f_equal. f_equal. lia.
+Qed.
+
+Example ipv6_laws_satisfiable :
+  (forall s a, toy_pton6 s = Some a -> length a = 16%nat) /\
+  (forall a, length a = 16%nat -> bytes_ok a -> toy_pton6 (toy_ntop6 a) = Some a) /\
+  (forall a, length a = 16%nat -> bytes_ok a -> In 58 (toy_ntop6 a) /\ no_nul (toy_ntop6 a)).
+Proof.
+  split; [|split].
+  - intros s a H. unfold toy_pton6 in H. destruct s as [|c r]; [discriminate|].
+    destruct (N.eqb_spec c 58) as [->|Hne].
+    + destruct (toy_unpair r) as [x|]; [|discriminate].
+      destruct (Nat.eqb_spec (length x) 16); [|discriminate]. inversion H; subst. assumption.
+    + exfalso. destruct c as [|p]; [discriminate|].
+      do 6 (destruct p as [p|p|]; try discriminate). congruence.
+  - intros a La _. unfold toy_pton6, toy_ntop6. rewrite toy_unpair_ok, La. reflexivity.
+  - intros a _ _. split; [left; reflexivity|]. unfold toy_ntop6. constructor; [lia|].
+    unfold no_nul. rewrite Forall_forall. intros x Hx. apply in_flat_map in Hx. destruct Hx as (b & _ & Hb).
+    destruct Hb as [<-|[<-|[]]]; lia.
+Qed.
+
+(* a hypothesis-free instance of the IPv6 round trip *)
+Example resolve_prettyprint_ipv6_instance :
+  exists str, sock_addr_prettyprint_m toy_ntop6 (sa_ipv6 443 (repeat 0 15 ++ [1])) = Ok (Some str) /\
+              no_nul str /\
+              sock_resolve_m toy_pton6 (cstr str) = Ok (RAddrs [sa_ipv6 443 (repeat 0 15 ++ [1])]).
+Proof.
+  destruct ipv6_laws_satisfiable as (L1 & L2 & L3).
+  apply (resolve_prettyprint_ipv6 toy_pton6 toy_ntop6 L1 L2 L3); [reflexivity | | lia].
+  repeat constructor.
+Qed.
